@@ -1,23 +1,38 @@
-(* weaveworks/mesh gossipSender (gossip.go: Send / Broadcast / pick) with emitter's event.State as
-   GossipData.  [GossipData.Merge] is event.State.Merge, which merges the argument INTO the
-   receiver and returns the argument reduced to a delta (or nil) - not the union mesh expects. *)
+(* weaveworks/mesh gossipSender (gossip.go: Send / Broadcast / pick) with what emitter's Swarm hands
+   to it as GossipData: a [payload] (cluster/swarm.go) around an event.State.  payload.Merge keeps
+   the union of both payloads in the pending object; the complete (live) state supersedes pending
+   deltas and absorbs nothing (it contains everything that was relayed).
+   [sender_send_raw] is event.State.Merge used directly as GossipData.Merge - what the code did
+   before the adapter existed: it returns the argument reduced to a delta (or nil), not the union
+   mesh expects (Findings/C13.v). *)
 From stdpp Require Import gmap.
 From Coq Require Import ZArith.
 From Emitter Require Import Model.Lww.
 
-(* the per-link "gossip" slot *)
+(* the per-link slot for payloads that are deltas / single operations *)
 Definition sender_send (pending : option replica) (data : replica) : option replica :=
   match pending with
   | None => Some data
-  | Some p => snd (state_merge p data)       (* s.gossip = s.gossip.Merge(data) *)
+  | Some p => Some (lww_merge p data)     (* p.state.Merge(o.state); return p *)
   end.
 
-(* the same, had Merge obeyed mesh's contract (return the union) *)
-Definition sender_send_union (pending : option replica) (data : replica) : option replica :=
+Definition sender_send_raw (pending : option replica) (data : replica) : option replica :=
   match pending with
   | None => Some data
-  | Some p => Some (lww_merge p data)
+  | Some p => snd (state_merge p data)       (* s.gossip = s.gossip.Merge(data) with State.Merge *)
   end.
 
 Definition queue_all (send : option replica -> replica -> option replica) (ps : list replica) : option replica :=
   fold_left send ps None.
+
+(* the gossip slot, which may also hold the complete state *)
+Inductive slot := SNone | SData (r : replica) | SFull.
+Definition slot_send (s : slot) (full : bool) (data : replica) : slot :=
+  match s with
+  | SFull => SFull
+  | SNone => if full then SFull else SData data
+  | SData p => if full then SFull else SData (lww_merge p data)
+  end.
+(* what is encoded when the slot is picked; [live] = the complete state at that moment *)
+Definition slot_payload (live : replica) (s : slot) : option replica :=
+  match s with SNone => None | SData r => Some r | SFull => Some live end.
